@@ -5,6 +5,7 @@ VERIF = os.path.dirname(os.path.dirname(os.path.abspath(__file__)))
 rows = ["| id | change (still passes the 365 tests) | needs | first quick run | now | caught by |", "|---|---|---|---|---|---|"]
 rounds = {}
 n = caught = first = 0
+neutralised = []
 for p in sorted(glob.glob(os.path.join(VERIF, "seeded", "*", "meta.json"))):
     m = json.load(open(p))
     n += 1
@@ -14,12 +15,18 @@ for p in sorted(glob.glob(os.path.join(VERIF, "seeded", "*", "meta.json"))):
     rd = rounds.setdefault(m.get("round", 1), [0, 0, 0])
     rd[0] += 1; rd[1] += f_ok; rd[2] += bool(m.get("detected_by"))
     now = m.get("detected_by", [])
+    neutral = m.get("neutralised")
+    if neutral:
+        # a later repair of gfapy removed the effect of this change: with it applied the property holds again
+        neutralised.append(m["id"])
+        now = ["n/a"]
     caught += bool(now)
     how = m.get("caught_by", "")
     rows.append("| %s | %s | %s | %s | %s | %s |" % (m["id"], m.get("change", ""), m.get("needs", ""), "caught" if f_ok else "missed",
-                                                 "caught" if now else "MISSED", how))
+                                                 ("no longer a defect" if neutral else "caught") if now else "MISSED",
+                                                 (neutral if neutral else how)))
 rows.append("")
-rows.append("First run: %d of %d caught; now: %d of %d.  " % (first, n, caught, n) +
+rows.append("First run: %d of %d caught; now: %d of %d%s.  " % (first, n, caught, n, (" (%d of them no longer defects after a later repair: %s)" % (len(neutralised), ", ".join(neutralised))) if neutralised else "") +
             "; ".join("round %s: %d changes, %d caught at the first run, %d now" % (k, v[0], v[1], v[2]) for k, v in sorted(rounds.items())))
 path = os.path.join(VERIF, "DESIGN.md")
 s = open(path).read()
